@@ -648,7 +648,7 @@ class Parser:
                         self.eat()
                     if "." in lit:
                         raise TranslateError("T::from of a non-integer literal")
-                    return lit
+                    return "(%s : Rat)" % lit
                 e = self.expr()
                 self.eat("op", ")")
                 self.eat("op", "?")
@@ -1551,6 +1551,10 @@ class StmtParser(Parser):
         self.rest_facts = {}
         if not arms:
             raise TranslateError("empty match")
+        if self.opts.get("rank_match_default") and self.fn_unit and not any(a.startswith("\n  | _ =>") for a in arms):
+            # the job encodes an enum by its rank (a `Nat`): Rust's exhaustive match over the variants needs a catch-all arm
+            # in Lean; it is dead code (every rank is one of the listed numerals) and leaves the state unchanged
+            arms.append("\n  | _ => %s" % env.retraw(self.unit_value()))
         return "(match %s with%s)" % (scrut, "".join(arms))
 
     def arm_stmt(self, env):
